@@ -570,6 +570,9 @@ func DecodeSLConfigDescriptor(tag byte, sr bits.SliceReader, maxNrBytes int) (De
 		return nil, fmt.Errorf("DecodeSLConfigDescriptor size %d exceeds maxNrBytes %d", size, maxNrBytes)
 	}
 	d.sizeFieldSizeMinus1 = sizeFieldSizeMinus1
+	if size < 1 {
+		return nil, fmt.Errorf("DecodeSLConfigDescriptor size %d is too small for the predefined byte", size)
+	}
 
 	d.ConfigValue = sr.ReadUint8()
 	if size > 1 {
